@@ -202,12 +202,12 @@ def vcNonDegenerate : VC → Bool
   | .single c => rcNonDegenerate c
   | .union rs => rs.all rcNonDegenerate
 
-/-- the coherence invariant of a `SingleMarker`: the object is what the constructor builds from the object's own
+/-- the coherence invariant of a `SingleMarker`: the constraint is the one the constructor builds from the object's own
 key `(name, operator, value, swapped)` — `SingleMarker.__init__` is the only writer of `_constraint`, it derives it
 from exactly these four values (`leafPrepare`, `parseByKind`), and every algebra result builds its leaves through
 the constructor (`SingleMarker(self.name, …)`, `parse_marker`). -/
 def singleCoherent (s : Single) : Prop :=
-  mkSingle s.name (itemConstraintString s.op s.value s.swapped) s.swapped = .ok s
+  ∃ s', mkSingle s.name (itemConstraintString s.op s.value s.swapped) s.swapped = .ok s' ∧ s'.c = s.c
 
 /-- class invariants of the leaves: an `AtomicMultiMarker` holds a `MultiConstraint`, an `AtomicMarkerUnion` a
 `UnionConstraint` (their constructors accept nothing else) -/
@@ -231,7 +231,7 @@ end
 /-- executable form of the invariant (what the driver reports per object) -/
 def singleCoherentB (s : Single) : Bool :=
   match mkSingle s.name (itemConstraintString s.op s.value s.swapped) s.swapped with
-  | .ok t => decide (t = s)
+  | .ok t => decide (t.c = s.c)
   | .error _ => false
 
 def leafCoherentB : Leaf → Bool
